@@ -795,7 +795,17 @@ func parseMsgIDList(s string) ([]string, error) {
 	return h.MsgIDList("In-Reply-To")
 }
 
-func readBody(dec *imapwire.Decoder, options *Options) (imap.BodyStructure, error) {
+func readBody(dec *imapwire.Decoder, options *Options) (bs imap.BodyStructure, err error) {
+	// Body structures nest without going through Decoder.List: apply its
+	// depth limit
+	err = dec.Nested(func() error {
+		bs, err = readBodyNested(dec, options)
+		return err
+	})
+	return bs, err
+}
+
+func readBodyNested(dec *imapwire.Decoder, options *Options) (imap.BodyStructure, error) {
 	if !dec.ExpectSpecial('(') {
 		return nil, dec.Err()
 	}
